@@ -24,6 +24,9 @@ def make_content(rng, n_pixels, n_runs, title, unit_variant, strings):
     exps = []
     # indirect geometry: the energy-transfer bin boundaries may be given per detector, as a 2-d array in either dimension order
     en_2d = em == sqw.EnergyMode.indirect and unit_variant % 4 >= 2
+    # run ids are whatever the user's runs are called: ascending, with gaps, or in no order at all.  Record k of the file is the
+    # k-th supplied experiment (the pixel row `irun` is a position in that list).
+    run_ids = list(range(n_runs)) if unit_variant % 2 == 0 else [int(x) for x in rng.permutation(np.arange(n_runs) * int(rng.integers(1, 4)) + int(rng.integers(0, 5)))]
     for r in range(n_runs):
         if en_2d:
             n_det, n_en = int(rng.integers(2, 4)), int(rng.integers(2, 5))
@@ -42,7 +45,7 @@ def make_content(rng, n_pixels, n_runs, title, unit_variant, strings):
             efix = sc.scalar(float(rng.uniform(1, 100)), unit=eu, dtype=edt)
             en = en.to(dtype=edt) if not en_2d else en
         exps.append(sqw.SqwIXExperiment(
-            run_id=r, efix=efix, emode=em,
+            run_id=run_ids[r], efix=efix, emode=em,
             en=en,
             psi=sc.scalar(float(rng.uniform(-180, 180)), unit=ang), u=sc.vector(rng.normal(size=3)), v=sc.vector(rng.normal(size=3)),
             omega=sc.scalar(float(rng.uniform(-3, 3)), unit=ang), dpsi=sc.scalar(float(rng.uniform(-3, 3)), unit=ang),
@@ -218,8 +221,12 @@ def check_content(w, content, order, title):
                     if got_en.shape != want_en.shape or not np.allclose(got_en, want_en, rtol=1e-14):
                         probs.append(f'run {r}: 2-d en (per detector) not stored as [detector, energy_transfer] in meV: shape {got_en.shape}, '
                                      f'first row {got_en.reshape(-1)[:3]} vs {want_en[0][:3]}')
-                elif not np.allclose(np.asarray(e['en']).ravel(), s.en.to(dtype='float64').to(unit='meV').values, rtol=1e-14):
-                    probs.append(f'run {r}: en not in meV')
+                else:
+                    got_en, want_en = np.asarray(e['en']).ravel(), s.en.to(dtype='float64').to(unit='meV').values
+                    if got_en.shape != want_en.shape:
+                        probs.append(f'run {r}: record {r} holds {got_en.size} energies, the {r}-th supplied experiment has {want_en.size}')
+                    elif not np.allclose(got_en, want_en, rtol=1e-14):
+                        probs.append(f'run {r}: en not in meV')
                 for a in ('psi', 'omega', 'dpsi', 'gl', 'gs'):
                     if not np.isclose(e[a], getattr(s, a).to(unit='rad').value, rtol=1e-14, atol=0):
                         probs.append(f'run {r}: {a} not in radians')
